@@ -17,7 +17,7 @@ repo = load_repo(root)
 out = {"functions": [], "globals": {}, "class_attrs": {}}
 for rel, m in sorted(repo.modules.items()):
     out["globals"][rel] = sorted(m.globals)
-    for fi in list(m.functions.values()) + [f for c in m.classes.values() for f in c.methods.values()]:
+    for fi in m.all_functions():
         out["functions"].append(fi.key)
     for cn, ci in m.classes.items():
         out["class_attrs"]["%s::%s" % (rel, cn)] = sorted(ci.attrs)
